@@ -203,6 +203,16 @@ func C15(run *core.Run) {
 		run.Add("operations", int64((len(tr.Lines)-1)/2))
 		distinct.Add(fmt.Sprint(tr.Lines))
 	}
+	// pair races: an event and the deletion request of its author that names it, inserted by two
+	// goroutines at the same moment while a third one lists; whatever the order, the listing never
+	// shows both, and the flags must be explainable
+	npair := 2 * nh
+	for i := 0; i < npair; i++ {
+		tr := pairRace(r, fmt.Sprintf("pair-%d", i))
+		traces = append(traces, tr)
+		run.Add("operations", int64((len(tr.Lines)-1)/2))
+		distinct.Add(fmt.Sprint(tr.Lines))
+	}
 	// validate in chunks so that one TLC run stays small
 	for lo := 0; lo < len(traces); lo += 250 {
 		hi := min(lo+250, len(traces))
@@ -315,4 +325,50 @@ func C15(run *core.Run) {
 	run.Set("distinct_nontrivial", distinct.Len())
 	run.Assume = append(run.Assume, "absence of data races is observed dynamically by the Go race detector on these runs, not proved",
 		"linearizability is decided per recorded small history; large mixes are only checked for the invariant clause")
+}
+
+func pairRace(r *rand.Rand, name string) tv.Trace {
+	conc := abs.NewConc()
+	cap := 3
+	x := abs.Event{ID: "x", Author: "a", Kind: []int64{1, 0, 30000}[r.Intn(3)], TS: 2}
+	if x.Kind == 30000 {
+		x.Tags = []abs.Tag{{Name: "d", Val: "x", N: 2}}
+	}
+	k := abs.Event{ID: "k", Author: "a", Kind: 5, TS: 3, Tags: []abs.Tag{{Name: "e", Val: "x", N: 2}}}
+	cache := mocrelay.NewEventCache(cap)
+	tr := tv.Trace{Name: name}
+	var mu sync.Mutex
+	log := func(l map[string]any) { mu.Lock(); tr.Lines = append(tr.Lines, l); mu.Unlock() }
+	log(map[string]any{"op": "reset", "cap": cap})
+	start := make(chan struct{})
+	var wg sync.WaitGroup
+	add := func(id string, e abs.Event) {
+		defer wg.Done()
+		ce := conc.Event(e, "c")
+		<-start
+		log(map[string]any{"op": "call", "id": name + "/" + id, "kind": "add", "e": e, "fs": []abs.Filter{}, "shape": "call add"})
+		added := cache.Add(ce)
+		log(map[string]any{"op": "ret", "id": name + "/" + id, "added": added, "res": []string{}, "n": 0, "shape": "ret add (event raced with its deletion request)"})
+	}
+	wg.Add(3)
+	go add("x", x)
+	go add("k", k)
+	go func() {
+		defer wg.Done()
+		<-start
+		for i := 0; i < 3; i++ {
+			id := fmt.Sprintf("%s/f%d", name, i)
+			log(map[string]any{"op": "call", "id": id, "kind": "find", "e": dummyEv, "fs": abs.NormFilters([]abs.Filter{{}}), "shape": "call find"})
+			res := cache.Find(matchAll)
+			log(map[string]any{"op": "ret", "id": id, "added": false, "res": conc.Labels(res), "n": 0, "shape": "ret find (event raced with its deletion request)"})
+		}
+	}()
+	close(start)
+	wg.Wait()
+	// the final state, after everything returned
+	id := name + "/final"
+	log(map[string]any{"op": "call", "id": id, "kind": "find", "e": dummyEv, "fs": abs.NormFilters([]abs.Filter{{}}), "shape": "call find"})
+	res := cache.Find(matchAll)
+	log(map[string]any{"op": "ret", "id": id, "added": false, "res": conc.Labels(res), "n": 0, "shape": "ret final listing (event raced with its deletion request)"})
+	return tr
 }
